@@ -18,6 +18,8 @@ from numbers import Number
 from types import NoneType
 from typing import Any
 
+import numpy as np
+
 from ..utils import (
     ParameterBoundsError,
     ParameterDictError,
@@ -85,6 +87,8 @@ class Parameter:
 
     @min_bound.setter
     def min_bound(self, value: Any) -> None:
+        if isinstance(value, np.generic):
+            value = value.item()
         if value is not None:
             if not isnumeric(self.__value):
                 raise ParameterBoundsError(
@@ -105,6 +109,8 @@ class Parameter:
 
     @max_bound.setter
     def max_bound(self, value: Any) -> None:
+        if isinstance(value, np.generic):
+            value = value.item()
         if value is not None:
             if not isnumeric(self.__value):
                 raise ParameterBoundsError(
@@ -134,6 +140,9 @@ class Parameter:
 
     def set(self, value: Any) -> None:
         """Update the current value of the parameter."""
+        # Compare and store numpy scalars as python numbers
+        if isinstance(value, np.generic):
+            value = value.item()
         # Don't allow parameter to be set to non-numeric value if bounds set
         if self.has_bounds():
             if not isinstance(value, Number) or isinstance(value, bool):
